@@ -223,7 +223,7 @@ func (r *runner) runLife(sc script, _ interface{}) {
 			"a genuine share filed under the block hash before the party was registered there was not handed to the party afterwards (dropped or withheld while parked)",
 			map[string]interface{}{"state": r.lifeObserve(s, s.hash, "end")})
 	}
-	if r.search && s.lifeStage() == "signing" && !s.life.rejected && !s.life.timedOut {
+	if r.search && (s.lifeStage() == "signing" || (s.round.HasParty() && s.reaped)) && !s.life.rejected && !s.life.timedOut {
 		r.checkFinal(s)
 	}
 	end := s.ending
